@@ -13,7 +13,7 @@ PROPERTY = 'C16'
 LEVEL = 'exploration'
 RULE = ('federations: Hypothesis specs of 1-3 sources x 1-5 entities from a pool of 5 entity ids (so ids repeat across sources) x roles {idp, sp, aa} x endpoints over 5 bindings with '
         'indexes x key descriptors (use signing/encryption/none, 1-2 certs) x protocolSupportEnumeration {SAML2, SAML1 only, both} x entity categories (one Attribute, one Attribute per value, spread over two EntityAttributes blocks; a second entity attribute interleaved) / requested attributes x '
-        'validUntil {absent, past, future} on entity and document x signed remote roots {valid, tampered, wrong key}; all accessors queried for every (entity, role, service, binding) '
+        'validUntil {absent, past, future} on entity and document x signed remote roots {valid, tampered, wrong key} x entry point {load, imp dict-style, imp list-style; the store keeps being used after a refused source} x validUntil spelled with 0-9 fractional digits; all accessors queried for every (entity, role, service, binding) '
         'incl. an unknown entity. config round trip: generated SP/IdP configs -> entity_descriptor -> store. '
         'Non-trivial = federation has a duplicate id, an expired item, a signed source or an entity with >= 2 roles / key uses; distinct = distinct spec.')
 ASSUMPTIONS = ['reference model = the spec the XML was rendered from (harness templates); for ids defined in several sources any single defining source is an acceptable answer',
@@ -49,12 +49,22 @@ def spec_strategy():
                                    ).filter(lambda e: any(r in e for r in ('idp', 'sp', 'aa')))   # an EntityDescriptor needs at least one role descriptor
     source = st.fixed_dictionaries({'root': st.sampled_from(['entities', 'entities', 'entity']), 'valid_until': vu, 'entities': st.lists(entity, min_size=1, max_size=4),
                                     'how': st.sampled_from(['inline', 'local', 'extern']), 'signed': st.sampled_from([None, None, 'valid', 'tampered', 'wrongkey']),
-                                    'nested': st.sampled_from([False, False, False, True])})
+                                    'nested': st.sampled_from([False, False, False, True]),
+                                    # entry point: MetadataStore.load(...) / imp({...}) (dict style) / imp([{'class':..., 'metadata': [...]}]) (list style)
+                                    'via': st.sampled_from(['load', 'load', 'imp-dict', 'imp-list']),
+                                    # spelling of the validUntil instants: number of fractional-second digits
+                                    'vu_frac': st.sampled_from([0, 0, 1, 3, 6, 7, 9])})
     return st.fixed_dictionaries({'sources': st.lists(source, min_size=1, max_size=3)})
 
 
+_FRAC = [0]
+
+
 def when(v):
-    return {None: None, 'past': build.ts(NOW - 3600), 'future': build.ts(NOW + 3600)}[v]
+    t = {None: None, 'past': build.ts(NOW - 3600), 'future': build.ts(NOW + 3600)}[v]
+    if t is None or not _FRAC[0]:
+        return t
+    return t[:-1] + '.' + '1234567890'[:_FRAC[0]] + 'Z'
 
 
 def loc(eid, role, svc, path):
@@ -228,21 +238,39 @@ def run(case):
     feats = set()
     docs = {}
     for n, src in enumerate(case['sources']):
+        _FRAC[0] = src.get('vu_frac', 0)
         xml = render_source(src, n)
+        _FRAC[0] = 0
         m = model_of_source(src)
+        via = src.get('via', 'load')
         try:
             if src['how'] == 'inline':
-                mds.load('inline', xml)
+                if via == 'imp-dict':
+                    mds.imp({'inline': [xml]})
+                elif via == 'imp-list':
+                    mds.imp([{'class': 'saml2_tophat.mdstore.InMemoryMetaData', 'metadata': [(xml,)]}])
+                else:
+                    mds.load('inline', xml)
             elif src['how'] == 'local':
                 p = os.path.join(os.getcwd(), 'md-%d-%d.xml' % (os.getpid(), n))
                 with open(p, 'w', encoding='utf-8') as f:
                     f.write(xml)
-                mds.load('local', p)
+                if via == 'imp-dict':
+                    mds.imp({'local': [p]})
+                elif via == 'imp-list':
+                    mds.imp([{'class': 'saml2_tophat.mdstore.MetaDataFile', 'metadata': [(p,)]}])
+                else:
+                    mds.load('local', p)
             else:
                 url = 'https://md.example.org/feed-%d' % n
                 docs[url] = xml
                 mds.http = FakeHTTP(docs)
-                mds.load('remote', url=url, cert=world.crt(7))
+                if via == 'imp-dict':
+                    mds.imp({'remote': [{'url': url, 'cert': world.crt(7)}]})
+                elif via == 'imp-list':
+                    mds.imp([{'class': 'saml2_tophat.mdstore.MetaDataExtern', 'metadata': [(url, world.crt(7))]}])
+                else:
+                    mds.load('remote', url=url, cert=world.crt(7))
             loaded = True
         except Exception as e:
             loaded = False
